@@ -167,8 +167,8 @@ def crashInClose (st : PState) (p : CrashPoint) : Option PState :=
 def pWrite (st : PState) (batch : List Point) : PState × WriteRes :=
   let v := validateTwoPhase st.mem batch
   let touched := (batch.filter (fun p => !hasTimeTag p)).map (·.meas)
-  let st1 : PState := { st with mem := v.sch, lastAppended := false,
-                        series := st.series ++ touched.filter (fun m => !st.series.contains m) }
+  let series' := st.series ++ touched.filter (fun m => !st.series.contains m)
+  let st1 : PState := { st with mem := v.sch, lastAppended := false, series := series' }
   -- saveFieldsAndMeasurements
   let st2 := if v.created.isEmpty then st1 else appendLog st1 (v.created.map fun c => .add c.1.1 c.1.2 c.2)
   let res := (writePoints { sch := st.mem, data := st.data } batch)
@@ -178,9 +178,8 @@ def pWrite (st : PState) (batch : List Point) : PState × WriteRes :=
     existed in the index its field set is removed and the deletion is logged -/
 def pDrop (st : PState) (m : String) : PState :=
   if st.series.contains m then
-    appendLog { st with mem := dropMeas st.mem m,
-                        data := st.data.filter (fun e => e.1.1 != m),
-                        series := st.series.filter (· != m) } [.del m]
+    let data' := st.data.filter (fun e => e.1.1 != m)
+    appendLog { st with mem := dropMeas st.mem m, data := data', series := st.series.filter (· != m) } [.del m]
   else { st with lastAppended := false }
 
 /-- what a cursor read returns: the stored values of fields the schema knows, in
